@@ -163,6 +163,15 @@ def answer (l : String) : String :=
         | .error e => showErr e
       | _ => "bad"
     | none => "bad"
+  | ["xclose", v, w] =>
+    -- closeness of two flattened arrays with non-finite entries (tokens `nan`, `inf`, `-inf`, rationals)
+    let px (t : String) : Option XVal :=
+      if t == "nan" then some .nan else if t == "inf" then some .pinf else if t == "-inf" then some .ninf
+      else (parseRat? t).map .fin
+    let pv (s : String) : Option (List XVal) := if s == "-" then some [] else (s.splitOn ",").mapM px
+    match pv v, pv w with
+    | some a, some b => toString (closeListX a b)
+    | _, _ => "bad"
   | "mvadd" :: ts =>
     -- mvadd n c₁…cₙ m d₁…dₘ : `mfd + other` (list concatenation through the constructor)
     match pCounted pData ts with
